@@ -14,7 +14,6 @@ import (
 	"encoding/json"
 	"errors"
 	"fmt"
-	"runtime"
 	"sort"
 	"strconv"
 	"strings"
@@ -80,6 +79,8 @@ type c06DB struct {
 	stamps   atomic.Int64
 	results  map[int64]c06QRes
 	errFirst bool
+	// runs inside a statement after it passed the gate, before it reads the table
+	afterGate func(stamp int64)
 }
 
 type c06QRes struct {
@@ -105,6 +106,9 @@ func (c *c06Conn) hold() (stamp int64, release func()) {
 	}
 	stamp = d.stamps.Add(1)
 	<-d.gate
+	if d.afterGate != nil {
+		d.afterGate(stamp)
+	}
 	return stamp, func() { d.inflight.Add(-1) }
 }
 
@@ -406,17 +410,9 @@ func (s *c06S) nfRule() kit.TTLRule {
 }
 
 func (s *c06S) arm(fault, key string) {
-	if fault == "none" {
-		return
-	}
-	if !s.w.Env.Pad(s.w.Nodes, 15) {
+	if !s.w.ArmFault(fault, key) {
 		s.w.Abort("padding PING failed")
 	}
-	if fault == "outage" {
-		s.w.Env.Outage(true)
-		return
-	}
-	s.w.Env.Hook.Arm(fault, key, 1)
 }
 
 func (s *c06S) disarm(op string, err error) []kit.Cmd {
@@ -600,7 +596,7 @@ func (s *c06S) judge(name string, err error, out c06Rec, dIdx, dPri int, tr []ki
 		w.Settle(keep)
 		return
 	}
-	writeFailed := c06Failed(tr, outage, kit.KSet) || c06Failed(tr, outage, kit.KSetNX)
+	writeFailed := kit.WriteFailed(tr, outage)
 	var chosen *c06Alt
 	for i := range alts {
 		a := &alts[i]
@@ -620,8 +616,9 @@ func (s *c06S) judge(name string, err error, out c06Rec, dIdx, dPri int, tr []ki
 			if a.dbErr {
 				chosen = a
 			}
-		case kit.IsStoreErr(err) && writeFailed && dIdx+dPri > 0:
-			// the store failed after the query: reporting that failure is allowed
+		case kit.IsStoreErr(err) && writeFailed && a.filledIndex:
+			// an index read writes the primary entry inside its query step: when that write fails,
+			// the failure is reported instead of the row (a plain read returns the row regardless)
 			chosen = a
 		}
 	}
@@ -634,12 +631,21 @@ func (s *c06S) judge(name string, err error, out c06Rec, dIdx, dPri int, tr []ki
 	}
 	if writeFailed {
 		w.St.Class("read:cache-write-failed")
+		// the answer is unaffected (checked above); what the interrupted write left behind may be
+		// nothing or the entry, but never an entry with a TTL outside the rule
 		loose := map[string]kit.Want{}
-		for k := range chosen.want {
-			loose[k] = kit.Want{Loose: true}
-		}
 		for _, k := range touched {
 			loose[k] = kit.Want{Loose: true}
+		}
+		for k, cw := range chosen.want {
+			switch {
+			case cw.Placeholder:
+				loose[k] = kit.Want{Loose: true, MarkerTTL: cw.TTL}
+			case cw.Val != "":
+				loose[k] = kit.Want{Loose: true, TTL: cw.TTL}
+			default:
+				loose[k] = kit.Want{Loose: true}
+			}
 		}
 		w.Settle(loose)
 		return
@@ -695,6 +701,7 @@ func (s *c06S) queryRow(id int64, ctx, dbFail bool, fault string) {
 	dPri, dIdx := s.db.byID-q0, s.db.byIdx-i0
 	fmt.Fprintf(&w.Log, " %s(p%d%s%s)=%s/q%d", name, id, c06Flag(dbFail, ",dbfail"), c06Fault(fault), s.res(err, out), dPri)
 	s.noteFault(tr, fault == "outage")
+	s.w.NoteNth(fault, tr)
 	s.judge(fmt.Sprintf("%s(p%d)", name, id), err, out, dIdx, dPri, tr, fault == "outage", alts, []string{key})
 	s.afterRead(key)
 }
@@ -771,6 +778,7 @@ func (s *c06S) queryIndex(x int64, ctx, dbFail bool, fault string, faultKey stri
 	}
 	fmt.Fprintf(&w.Log, " %s(i%d%s%s%s)=%s/q%d+%d", name, x, c06Flag(dbFail, ",dbfail"), c06Fault(fault), fk, s.res(err, out), dIdx, dPri)
 	s.noteFault(tr, fault == "outage")
+	s.w.NoteNth(fault, tr)
 	s.judge(fmt.Sprintf("%s(i%d)", name, x), err, out, dIdx, dPri, tr, fault == "outage", alts, touched)
 	s.afterRead(touched...)
 }
@@ -841,6 +849,7 @@ func (s *c06S) exec(id int64, del bool, idx int64, nm string, ctx, dbFail bool, 
 	}
 	fmt.Fprintf(&w.Log, " %s(%s;keys=%s%s%s%s)=%s", name, what, strings.Join(short, ","), c06Flag(dbFail, ",dbfail"), c06Flag(racing, ",racing-read"), c06Fault(fault), c06ExecRes(s, res, err))
 	s.noteFault(tr, outage)
+	s.w.NoteNth(fault, tr)
 	if s.db.execs-e0 != 1 {
 		w.Fail("%s ran the statement %d times", name, s.db.execs-e0)
 	}
@@ -924,12 +933,21 @@ func (s *c06S) setCache(id int64, v c06Rec, api int, e time.Duration, fault stri
 	fmt.Fprintf(&w.Log, " %s(p%d,%s%s%s)=%v", name, id, v, arg, c06Fault(fault), err)
 	outage := fault == "outage"
 	s.noteFault(tr, outage)
-	if c06Failed(tr, outage, kit.KSet) || c06Failed(tr, outage, kit.KSetNX) {
+	s.w.NoteNth(fault, tr)
+	if kit.WriteFailed(tr, outage) {
 		w.St.Class("set:cache-write-failed")
 		if err == nil {
 			w.Fail("%s(p%d): the cache write failed but the call reported success", name, id)
 		}
-		w.Settle(map[string]kit.Want{key: {Keep: true}})
+		if kit.Saw(tr, kit.KSet) && len(tr) == 1 {
+			w.Settle(map[string]kit.Want{key: {Keep: true}})
+			return
+		}
+		// the write consists of several commands and was interrupted: old or new entry, lawful TTL
+		if w.FromTruth(key) != (kit.Outcome{OK: true, Val: v.String()}) {
+			w.Foreign[key] = true
+		}
+		w.Settle(map[string]kit.Want{key: {Loose: true, TTL: rule, MarkerTTL: rule}})
 		return
 	}
 	if err != nil {
@@ -966,6 +984,7 @@ func (s *c06S) delCache(ids []int64, ctx bool, fault string) {
 	fmt.Fprintf(&w.Log, " %s(%s%s)=%v", name, strings.Join(short, ","), c06Fault(fault), err)
 	outage := fault == "outage"
 	s.noteFault(tr, outage)
+	s.w.NoteNth(fault, tr)
 	failed := c06Failed(tr, outage, kit.KDel)
 	if !failed && err != nil {
 		w.Fail("%s on a healthy store returned %v", name, err)
@@ -999,6 +1018,7 @@ func (s *c06S) getCache(id int64, ctx bool, fault string) {
 	fmt.Fprintf(&w.Log, " %s(p%d%s)=%s", name, id, c06Fault(fault), s.res(err, out))
 	outage := fault == "outage"
 	s.noteFault(tr, outage)
+	s.w.NoteNth(fault, tr)
 	if c06Failed(tr, outage, kit.KGet) {
 		w.St.Class("get:cache-get-failed")
 		if err == nil || errors.Is(err, s.errNF) {
@@ -1034,6 +1054,14 @@ func c06ExecRes(s *c06S, res sql.Result, err error) string {
 func c06DrawFault(t *rapid.T, every int, kinds ...string) string {
 	if rapid.IntRange(0, every).Draw(t, "faulty") != 0 {
 		return "none"
+	}
+	// by name (one chosen command of the call), or by position: the k-th command the call
+	// issues, whatever it is - alone ("nth") or with everything after it ("nth+")
+	switch rapid.IntRange(0, 3).Draw(t, "faultBy") {
+	case 0:
+		return fmt.Sprintf("nth:%d", rapid.SampledFrom([]int{1, 1, 2, 2, 2, 2, 3, 3, 3, 4}).Draw(t, "k"))
+	case 1:
+		return fmt.Sprintf("nth+:%d", rapid.SampledFrom([]int{1, 1, 2, 2, 2, 2, 3, 3, 3, 4}).Draw(t, "k"))
 	}
 	return rapid.SampledFrom(kinds).Draw(t, "fault")
 }
@@ -1169,9 +1197,10 @@ func TestVerifC06SqlcMachine(t *testing.T) {
 // ------------------------------------------------------------------ concurrent readers
 
 // G goroutines read one uncached key through one or two CachedConns that share the key
-// (the package keeps one SingleFlight for all conns).  The fake database holds every
-// statement at a gate until the readers are on their way and records how many statements
-// ran at a time.
+// (the package keeps one SingleFlight for all conns), by primary key or by index key.  The
+// fake database holds every statement at a gate until the other readers have joined the
+// running flight (observed, see kit.ParkedInFlight) and records how many statements ran at a
+// time.  A fault plan places a cache-store failure before, during or right after the query.
 func TestVerifC06SqlcConcurrent(t *testing.T) {
 	st := verifkit.New("sqlc-concurrent")
 	defer st.Flush()
@@ -1179,12 +1208,16 @@ func TestVerifC06SqlcConcurrent(t *testing.T) {
 		st.Eval()
 		s := c06NewS(t, st, "d")
 		w := s.w
+		env := w.Env
 		g := rapid.IntRange(2, 16).Draw(t, "G")
 		byIndex := rapid.Bool().Draw(t, "byIndex")
 		twoConns := s.conf.ctor != 2 && rapid.Bool().Draw(t, "twoConns")
 		rowExists := rapid.Bool().Draw(t, "row")
-		dbMode := rapid.SampledFrom([]string{"ok", "ok", "error-always", "error-first"}).Draw(t, "db")
+		dbMode := rapid.SampledFrom([]string{"ok", "ok", "ok", "error-always", "error-first"}).Draw(t, "db")
 		pre := rapid.SampledFrom([]string{"never-cached", "invalidated", "expired"}).Draw(t, "pre")
+		plan := rapid.SampledFrom(kit.Plans).Draw(t, "faultPlan")
+		// index reads write two entries: which write-back does the plan fail?
+		wbTarget := rapid.SampledFrom([]string{"index-entry", "primary-entry", "both"}).Draw(t, "writeBackTarget")
 		const id, x = int64(1), int64(0)
 		// exactly row 1 may carry index value 0
 		for i := int64(0); i < c06IDs; i++ {
@@ -1193,9 +1226,14 @@ func TestVerifC06SqlcConcurrent(t *testing.T) {
 		if rowExists {
 			s.conn.Exec("upsert", id, x, "r")
 		}
-		fmt.Fprintf(&w.Log, " G=%d byIndex=%v twoConns=%v row=%v pre=%s db=%s:", g, byIndex, twoConns, rowExists, pre, dbMode)
+		fmt.Fprintf(&w.Log, " G=%d byIndex=%v twoConns=%v row=%v pre=%s db=%s plan=%s", g, byIndex, twoConns, rowExists, pre, dbMode, plan)
+		if byIndex && plan == kit.PlanWriteBack {
+			fmt.Fprintf(&w.Log, "(%s)", wbTarget)
+		}
+		w.Log.WriteString(":")
 		st.Class("pre:" + pre)
 		st.Class("db:" + dbMode)
+		st.Class("plan:" + plan)
 		st.Class(fmt.Sprintf("byIndex:%v", byIndex))
 		key := s.pk[id]
 		if byIndex {
@@ -1218,7 +1256,7 @@ func TestVerifC06SqlcConcurrent(t *testing.T) {
 					s.exec(id, false, x, "r2", false, false, "none", []int{0, 1, 2}, false)
 				} else {
 					s.cc.DelCache(s.pk[id], s.ik[x])
-					w.Env.Hook.Take()
+					env.Hook.Take()
 					w.Settle(map[string]kit.Want{s.pk[id]: {Absent: true}, s.ik[x]: {Absent: true}})
 				}
 			case "expired":
@@ -1236,18 +1274,32 @@ func TestVerifC06SqlcConcurrent(t *testing.T) {
 					w.Fail("harness: key %s still cached before the concurrent round", k)
 				}
 			}
+			// keep the per-address breaker closed: up to G commands may be failed in this round
+			if plan != kit.PlanNone && !env.Pad(w.Nodes, 12*g+15) {
+				w.Abort("padding PING failed")
+			}
 		})
 		if w.Dead {
 			return
 		}
 		conns := []sqlc.CachedConn{s.cc}
 		if twoConns {
-			cc2, _ := c06Build(w.Env, s.conf, s.conn)
+			cc2, _ := c06Build(env, s.conf, s.conn)
 			conns = append(conns, cc2)
 		}
 		d := s.db
 		d.gate, d.results, d.errFirst, d.fail = make(chan struct{}), map[int64]c06QRes{}, dbMode == "error-first", dbMode == "error-always"
-		q0 := d.byID + d.byIdx
+		d.afterGate = func(stamp int64) {
+			if plan == kit.PlanOutageDuring && stamp == 1 {
+				env.Outage(true) // the store goes down while the statement runs, and stays down
+			}
+		}
+		if plan == kit.PlanOutageBefore {
+			env.Outage(true)
+		}
+		d.mu.Lock()
+		id0, ix0 := d.byID, d.byIdx
+		d.mu.Unlock()
 		outs := make([]c06Rec, g)
 		errs := make([]error, g)
 		var started atomic.Int64
@@ -1275,13 +1327,31 @@ func TestVerifC06SqlcConcurrent(t *testing.T) {
 				}
 			}(i)
 		}
-		deadline := time.Now().Add(5 * time.Second)
-		for (started.Load() < int64(g) || d.stamps.Load() == 0) && time.Now().Before(deadline) {
-			runtime.Gosched()
-		}
-		settle := time.Now().Add(2 * time.Millisecond)
-		for time.Now().Before(settle) && d.maxIn.Load() < 2 {
-			runtime.Gosched()
+		strong := false
+		pkWriteFailed := false // the plan fails the write-back of the primary entry of an index read
+		if plan != kit.PlanOutageBefore {
+			strong = kit.AwaitReaders(g, started.Load, d.stamps.Load, d.maxIn.Load)
+			switch plan {
+			case kit.PlanWriteBack:
+				targets := []string{key}
+				if byIndex {
+					switch wbTarget {
+					case "primary-entry":
+						targets = []string{s.pk[id]}
+					case "both":
+						targets = []string{key, s.pk[id]}
+					}
+					pkWriteFailed = wbTarget != "index-entry"
+				}
+				for _, k := range targets {
+					env.Hook.Arm(kit.KSet, k, -1)
+					env.Hook.Arm(kit.KSetNX, k, -1)
+				}
+			case kit.PlanOutageDuring:
+				pkWriteFailed = byIndex
+			case kit.PlanWaiterGet: // the leader's GET is over: from now on every GET of the key fails
+				env.Hook.Arm(kit.KGet, key, -1)
+			}
 		}
 		close(d.gate)
 		done := make(chan struct{})
@@ -1289,11 +1359,16 @@ func TestVerifC06SqlcConcurrent(t *testing.T) {
 		select {
 		case <-done:
 		case <-time.After(60 * time.Second):
+			env.Outage(false)
+			env.Hook.Disarm()
 			st.Class("inconclusive:readers-did-not-return")
 			st.Note("inconclusive: concurrent readers did not return within 60 s; %s", w.Log.String())
 			return
 		}
-		w.Env.Hook.Take()
+		env.Outage(false)
+		env.Hook.Disarm()
+		tr := env.Hook.Take()
+		d.afterGate = nil
 		for _, e := range errs {
 			w.Guard(func() { w.CheckInfra("concurrent read", e) })
 		}
@@ -1301,43 +1376,118 @@ func TestVerifC06SqlcConcurrent(t *testing.T) {
 			return
 		}
 		d.mu.Lock()
-		nq := d.byID + d.byIdx - q0
+		nID, nIdx := d.byID-id0, d.byIdx-ix0
 		results := d.results
 		d.mu.Unlock()
-		fmt.Fprintf(&w.Log, " statements=%d maxInFlight=%d", nq, d.maxIn.Load())
+		nq := nID + nIdx
+		nGet, nSetFailed, nNXFailed, nGetFailed := 0, 0, 0, 0
+		down := plan == kit.PlanOutageBefore
+		for _, c := range tr {
+			switch c.Kind {
+			case kit.KGet:
+				nGet++
+				if c.Injected || down || (plan == kit.PlanOutageDuring && nGet > 1) {
+					nGetFailed++
+				}
+			case kit.KSet:
+				if c.Injected || plan == kit.PlanOutageDuring {
+					nSetFailed++
+				}
+			case kit.KSetNX:
+				if c.Injected || plan == kit.PlanOutageDuring {
+					nNXFailed++
+				}
+			}
+		}
+		st.ClassN("fault:write-back-SET-failed", nSetFailed)
+		st.ClassN("fault:marker-SETNX-failed", nNXFailed)
+		st.ClassN("fault:GET-failed", nGetFailed)
+		fmt.Fprintf(&w.Log, " statements=%d+%d maxInFlight=%d allJoined=%v failed(set=%d,setnx=%d,get=%d)", nIdx, nID, d.maxIn.Load(), strong, nSetFailed, nNXFailed, nGetFailed)
 		if mx := d.maxIn.Load(); mx > 1 {
 			w.Fail("concurrent reads of one uncached key ran %d database queries at the same time (at most one at a time)", mx)
 		}
 		got := map[string]int{}
 		for i := 0; i < g; i++ {
-			ok := false
-			for _, r := range results {
-				switch {
-				case errs[i] == nil:
-					ok = ok || (r.err == nil && outs[i] == r.rec)
-				case errors.Is(errs[i], s.errNF):
-					ok = ok || errors.Is(r.err, s.errNF)
-				case errors.Is(errs[i], c06ErrDB):
-					ok = ok || errors.Is(r.err, c06ErrDB)
-				}
-			}
 			got[s.res(errs[i], outs[i])]++
-			if !ok {
-				w.Fail("reader %d of %d received %s, which is not the result of any of the %d statements that ran (%v)",
-					i, g, s.res(errs[i], outs[i]), len(results), results)
-			}
 		}
 		fmt.Fprintf(&w.Log, " got=%v", got)
+		same := func(i int, r c06QRes) bool {
+			switch {
+			case errs[i] == nil:
+				return r.err == nil && outs[i] == r.rec
+			case errors.Is(errs[i], s.errNF):
+				return errors.Is(r.err, s.errNF)
+			case errors.Is(errs[i], c06ErrDB):
+				return errors.Is(r.err, c06ErrDB)
+			}
+			return false
+		}
+		describe := func(r c06QRes) string {
+			if r.err != nil {
+				return s.res(r.err, c06Rec{})
+			}
+			return r.rec.String()
+		}
+		switch {
+		case plan == kit.PlanOutageBefore:
+			// "a failing cache store (other than a miss) is reported without querying the database"
+			st.Class("mode:store-down-before")
+			if nq != 0 {
+				w.Fail("the cache store was down before the readers started, yet %d database statements ran (a failing cache store is reported without querying the database)", nq)
+			}
+			for i := 0; i < g; i++ {
+				if errs[i] == nil || errors.Is(errs[i], s.errNF) || errors.Is(errs[i], c06ErrDB) {
+					w.Fail("the cache store was down before the readers started, reader %d returned %s instead of reporting the store failure", i, s.res(errs[i], outs[i]))
+				}
+			}
+		case strong:
+			st.Class("mode:all-readers-joined-the-flight")
+			if plan != kit.PlanNone {
+				st.Class("mode:all-joined+" + plan)
+			}
+			q1 := results[1]
+			// An index read writes the primary entry inside its query step; when that write-back
+			// fails the failure is reported (to all readers alike) instead of the row.
+			lenient := byIndex && pkWriteFailed && q1.err == nil
+			if lenient {
+				st.Class("mode:index-read-with-failed-primary-write-back")
+			}
+			if !lenient && nq != 1 {
+				w.Fail("all %d readers had joined the flight of the first query, yet %d index + %d primary statements ran", g, nIdx, nID)
+			}
+			for i := 0; i < g; i++ {
+				if same(i, q1) || (lenient && kit.IsStoreErr(errs[i])) {
+					continue
+				}
+				w.Fail("reader %d of %d returned %s; it overlapped the one database query, which returned %s, and must receive that query's result whatever happens to the cache store (plan %s; readers got %v)",
+					i, g, s.res(errs[i], outs[i]), describe(q1), plan, got)
+			}
+		default:
+			st.Class("mode:some-readers-late")
+			for i := 0; i < g; i++ {
+				ok := false
+				for _, r := range results {
+					ok = ok || same(i, r)
+				}
+				if !ok && kit.IsStoreErr(errs[i]) && (nGetFailed > 0 || (byIndex && pkWriteFailed)) {
+					ok = true // a late reader whose own GET met the fault, or the reported primary write-back
+				}
+				if !ok {
+					w.Fail("reader %d of %d received %s, which is not the result of any of the %d statements that ran (%v)",
+						i, g, s.res(errs[i], outs[i]), len(results), results)
+				}
+			}
+		}
 		st.Class(fmt.Sprintf("statements:%d", min(nq, 3)))
 		for _, k := range w.Keys {
-			sv := w.Env.Lookup(w.Nodes, k)
+			sv := env.Lookup(w.Nodes, k)
 			switch {
 			case !sv.Present:
-				if dbMode == "ok" && k == key {
+				if dbMode == "ok" && plan == kit.PlanNone && k == key {
 					w.Fail("load suppression: after %d readers and %d statements nothing is cached under %s (healthy store)", g, nq, k)
 				}
-			case dbMode == "error-always":
-				w.Fail("database errors are never cached: the store holds %s=%q after a round in which every statement failed", k, sv.Raw)
+			case dbMode == "error-always" || plan == kit.PlanOutageBefore:
+				w.Fail("the store holds %s=%q after a round in which no statement succeeded (database errors are never cached)", k, sv.Raw)
 			case sv.TTL <= 0:
 				w.Fail("TTL clause: key %s is stored without a TTL, value %q", k, sv.Raw)
 			case sv.Raw == kit.Placeholder:
@@ -1358,9 +1508,9 @@ func TestVerifC06SqlcConcurrent(t *testing.T) {
 				w.Fail("the round left key %s=%q in the cache, which no reader asked for", k, sv.Raw)
 			}
 		}
-		if nq < g {
+		if strong || (nq < g && plan != kit.PlanOutageBefore) {
 			st.Class("case:readers-shared-a-query")
-			st.NonTrivial(fmt.Sprintf("G=%d byIndex=%v twoConns=%v row=%v pre=%s db=%s ctor=%d nodes=%d", g, byIndex, twoConns, rowExists, pre, dbMode, s.conf.ctor, len(s.conf.nodes)))
+			st.NonTrivial(fmt.Sprintf("G=%d byIndex=%v twoConns=%v row=%v pre=%s db=%s ctor=%d nodes=%d plan=%s/%s strong=%v", g, byIndex, twoConns, rowExists, pre, dbMode, s.conf.ctor, len(s.conf.nodes), plan, wbTarget, strong))
 		}
 	})
 }
